@@ -116,3 +116,75 @@ def rule_M8(ctx, pair=(NS + 'Geodesic', NS + 'GeodesicExact'), exhaustive=False)
                         B.replace(NS, ''), sorted(map(sorted, b_sets))))
     res.analysed.update({'factory_pairs': npairs, 'cases': ncases, 'factories': common})
     return res, npairs, ncases
+
+
+# ---------------------------------------------------------------------------------------------- M8b
+SIBLING_CLASSES = [('Geodesic', 'GeodesicExact'), ('GeodesicLine', 'GeodesicLineExact')]
+NORMALISERS = {'AngNormalize', 'LatFix', 'AngRound', 'AngDiff', 'sincosd', 'sincosde', 'atan2d', 'norm', 'sum'}
+M8B_AUDITED = {
+    ('EquatorialArc', 'atan2d'): 'the series class returns atan2d(_ssig1, _csig1), the exact class atan2(_ssig1, _csig1)/degree: '
+                                 'the same angle',
+}
+
+
+def _norm_calls(f):
+    import collections
+    c = collections.Counter()
+    where = {}
+    for i, n in f.all_nodes():
+        ce = n.get('callee')
+        if not ce or ce.get('name') not in NORMALISERS or n['k'] not in ('CallExpr', 'CXXMemberCallExpr'):
+            continue
+        names = []
+        for a in n.get('args', []):
+            an = f.nodes[f.strip_casts(a)]
+            names.append(an.get('name') if an['k'] == 'DeclRefExpr' else (an.get('m') if an['k'] == 'MemberExpr' else '.'))
+        key = (ce['name'], tuple(names))
+        c[key] += 1
+        where.setdefault(key, f.loc(i))
+    return c, where
+
+
+def rule_M8b(ctx):
+    res = RuleResult('M8b', 'sibling solvers normalise alike: a function of the series solver/line and the function of the same '
+                            'name in the exact solver/line apply the same angle normalisers (AngNormalize, LatFix, AngRound, '
+                            'AngDiff, sincosd, atan2d, norm, sum) to the same named quantities, the same number of times')
+    byq = {}
+    for f in ctx.lib_fns():
+        if f.d.get('body', -1) >= 0:
+            byq.setdefault(f.q, []).append(f)
+    npairs = 0
+    ncalls = 0
+    for a, b in SIBLING_CLASSES:
+        for q, fs in sorted(byq.items()):
+            if not q.startswith(NS + a + '::'):
+                continue
+            nm = q.split('::')[-1]
+            q2 = NS + b + '::' + (b if nm == a else nm)
+            if q2 not in byq:
+                continue
+            for f in fs:
+                gs = [g for g in byq[q2] if len(g.params) == len(f.params)]
+                if len(gs) != 1:
+                    continue
+                g = gs[0]
+                (s1, w1), (s2, w2) = _norm_calls(f), _norm_calls(g)
+                if not s1 and not s2:
+                    continue
+                npairs += 1
+                ncalls += sum(s1.values())
+                extra1, extra2 = s1 - s2, s2 - s1
+                for key in list(extra1) + list(extra2):
+                    if (nm, key[0]) in M8B_AUDITED:
+                        extra1.pop(key, None)
+                        extra2.pop(key, None)
+                        res.note('%s: %s' % (nm, M8B_AUDITED[(nm, key[0])]))
+                ok = not extra1 and not extra2
+                res.ob(ok, {'series': f.q, 'exact': g.q, 'normaliser_calls': sum(s1.values())})
+                for side, extra, wh, fn, other in (('series', extra1, w1, f, g), ('exact', extra2, w2, g, f)):
+                    for key, cnt in sorted(extra.items()):
+                        res.fail(fn.q, '%s(%s)' % (key[0], ','.join(x or '.' for x in key[1])), wh[key],
+                                 '%s applies %s(%s) %d time(s) more than its sibling %s'
+                                 % (fn.q, key[0], ', '.join(x or '.' for x in key[1]), cnt, other.q))
+    res.analysed.update({'sibling_pairs': npairs, 'normaliser_calls': ncalls})
+    return res, npairs, ncalls
